@@ -407,7 +407,13 @@ func vfC14Run(c vfC14Case, ctx *vfCtx) *vfViolation {
 		}
 		return nil
 	}
+	var keptSearch VectorSearch
+	var keptHits []vfHit
+	keptAt, mutations := -1, 0
 	for i, op := range c.Ops {
+		if op.Op != "search" {
+			mutations++
+		}
 		if op.Op == "purge" {
 			for _, id := range op.IDs {
 				if _, isLive := live[id]; !isLive {
@@ -507,6 +513,27 @@ func vfC14Run(c vfC14Case, ctx *vfCtx) *vfViolation {
 					s = s.WithDocumentIDs(op.IDs...)
 				}
 				r, err := s.Execute()
+				if err == nil && len(op.IDs) > 0 {
+					// a search object that is kept and executed again later - after OTHER restricted searches
+					// have run - still answers for its own restriction (nothing it holds may have gone back
+					// to a pool in between)
+					if keptSearch != nil && keptAt == mutations {
+						again, err2 := keptSearch.Execute()
+						if err2 != nil {
+							return nil, fmt.Errorf("re-executing an earlier restricted search: %w", err2)
+						}
+						a := vfHitsOf(again)
+						if len(a) != len(keptHits) {
+							return nil, fmt.Errorf("an earlier restricted search object returned %d results when it was first executed and %d now, after another restricted search ran (no add / remove / flush in between)", len(keptHits), len(a))
+						}
+						for j := range a {
+							if a[j].Score != keptHits[j].Score {
+								return nil, fmt.Errorf("an earlier restricted search object returns score %v at rank %d now, %v when it was first executed", a[j].Score, j, keptHits[j].Score)
+							}
+						}
+					}
+					keptSearch, keptHits, keptAt = s, vfHitsOf(r), mutations
+				}
 				return vfHitsOf(r), err
 			}
 			var unthresholded []vfHit
